@@ -370,8 +370,8 @@ theorem openCount_set : ∀ (l : List Conn) (k : Nat) (a b : Conn), l[k]? = some
 structure LInv (l : Loop) : Prop where
   total : l.counters.totalConnections = l.conns.length
   opened : l.counters.openConnections = (openCount l.conns : Int)
-  inbound : l.counters.inbound = sumIn l.conns
-  outbound : l.counters.outbound = sumOut l.conns
+  inbound : l.counters.inbound + l.pendingIn = sumIn l.conns
+  outbound : l.counters.outbound + l.pendingOut = sumOut l.conns
   reach : ∀ c ∈ l.conns, ∃ es, Inv es c
   stopped : l.stopped = true → ∀ c ∈ l.conns, c.returned = true
 
@@ -403,10 +403,14 @@ theorem LInv.connStep {l : Loop} (h : LInv l) (k : Nat) (e : Event) (hs : l.stop
     · simp [h.total]
     · simp only [hopen, h.opened]
       by_cases h1 : (c.step e).returned = true <;> by_cases h2 : c.returned = true <;> simp [h1, h2]
-    · simp only [sumIn, h.inbound]
-      exact (sum_map_set (fun c => c.d0.audited) l.conns k c (c.step e) hk hmono.1).symm
-    · simp only [sumOut, h.outbound]
-      exact (sum_map_set (fun c => c.d1.audited) l.conns k c (c.step e) hk hmono.2).symm
+    · have h1 := sum_map_set (fun c => c.d0.audited) l.conns k c (c.step e) hk hmono.1
+      have h2 := h.inbound
+      simp only [sumIn] at h2 ⊢
+      omega
+    · have h1 := sum_map_set (fun c => c.d1.audited) l.conns k c (c.step e) hk hmono.2
+      have h2 := h.outbound
+      simp only [sumOut] at h2 ⊢
+      omega
     · intro c' hc'
       simp only at hc'
       rcases List.mem_or_eq_of_mem_set hc' with hc' | rfl
@@ -507,8 +511,12 @@ theorem LInv.step {l : Loop} (h : LInv l) (e : LoopEvent) : LInv (l.step e) := b
     · refine ⟨?_, ?_, ?_, ?_, ?_, ?_⟩
       · simp [h.total]
       · simp only [openCount, List.filter_append, List.length_append, h.opened]; simp [openCount]
-      · simp [sumIn, h.inbound]
-      · simp [sumOut, h.outbound]
+      · have h2 := h.inbound
+        simp only [sumIn] at h2
+        simp [sumIn, h2]
+      · have h2 := h.outbound
+        simp only [sumOut] at h2
+        simp [sumOut, h2]
       · intro c hc
         simp only [List.mem_append, List.mem_singleton] at hc
         rcases hc with hc | rfl
@@ -541,6 +549,156 @@ theorem step_stop_stopped (l : Loop) : (l.step .stop).stopped = true := by
 
 theorem LInv.run (es : List LoopEvent) : LInv (Loop.run es) ∧ (Loop.run es).stopped = true :=
   ⟨(LInv.foldl es {} LInv.init).step .stop, step_stop_stopped _⟩
+
+/-! ## Writes in flight and loop generations -/
+
+theorem connStep_pending (l : Loop) (k : Nat) (e : Event) :
+    (l.connStep k e).pendingIn = l.pendingIn ∧ (l.connStep k e).pendingOut = l.pendingOut := by
+  unfold Loop.connStep
+  split <;> exact ⟨rfl, rfl⟩
+
+theorem cancel_foldl_pending (ks : List Nat) : ∀ l : Loop,
+    (ks.foldl (fun l k => l.connStep k .cancel) l).pendingIn = l.pendingIn ∧
+    (ks.foldl (fun l k => l.connStep k .cancel) l).pendingOut = l.pendingOut := by
+  induction ks with
+  | nil => intro l; exact ⟨rfl, rfl⟩
+  | cons k rest ih =>
+    intro l
+    simp only [List.foldl_cons]
+    have h1 := ih (l.connStep k .cancel)
+    have h2 := connStep_pending l k .cancel
+    exact ⟨h1.1.trans h2.1, h1.2.trans h2.2⟩
+
+/-- Ordinary loop events never leave an audit pending. -/
+theorem step_pending (l : Loop) (e : LoopEvent) :
+    (l.step e).pendingIn = l.pendingIn ∧ (l.step e).pendingOut = l.pendingOut := by
+  cases e with
+  | conn k ev =>
+    simp only [Loop.step]
+    split
+    · exact ⟨rfl, rfl⟩
+    · exact connStep_pending l k ev
+  | «open» => simp only [Loop.step]; split <;> exact ⟨rfl, rfl⟩
+  | openFail =>
+    simp only [Loop.step]
+    split
+    · exact ⟨rfl, rfl⟩
+    · exact cancel_foldl_pending _ l
+  | stop =>
+    simp only [Loop.step]
+    split
+    · exact ⟨rfl, rfl⟩
+    · exact cancel_foldl_pending _ l
+  | snap => exact ⟨rfl, rfl⟩
+
+theorem foldl_step_pending (es : List LoopEvent) : ∀ l : Loop,
+    (es.foldl Loop.step l).pendingIn = l.pendingIn ∧ (es.foldl Loop.step l).pendingOut = l.pendingOut := by
+  induction es with
+  | nil => intro l; exact ⟨rfl, rfl⟩
+  | cons e rest ih =>
+    intro l
+    simp only [List.foldl_cons]
+    have h1 := ih (l.step e)
+    have h2 := step_pending l e
+    exact ⟨h1.1.trans h2.1, h1.2.trans h2.2⟩
+
+/-- A write in flight keeps the invariant: the accepted bytes are accounted for
+as pending audits of this loop. -/
+theorem LInv.inFlight {l : Loop} (h : LInv l) (k : Nat) (d : Bool) (bs : List UInt8) :
+    LInv (l.inFlight k d bs) := by
+  unfold Loop.inFlight
+  split
+  · exact h
+  · rename_i hs
+    have hs : l.stopped = false := by simpa using hs
+    cases hk : l.conns[k]? with
+    | none => simpa using h
+    | some c =>
+      simp only
+      have hmono := step_audited_mono c (.chunk d bs bs.length false)
+      have hret := step_returned_mono c (.chunk d bs bs.length false)
+      -- a complete, error-free write never makes ForwardAndClose return
+      have hsame : (c.step (.chunk d bs bs.length false)).returned = c.returned := by
+        cases d <;> simp only [Conn.step, Conn.dir, Conn.setDir, Nat.min_self, Nat.lt_irrefl, or_false,
+          Bool.false_eq_true, if_false, if_true, ↓reduceIte]
+        · by_cases hc : c.returned = true ∨ c.d0.status ≠ Status.running
+          · rw [if_pos hc]
+          · rw [if_neg hc]
+        · by_cases hc : c.returned = true ∨ c.d1.status ≠ Status.running
+          · rw [if_pos hc]
+          · rw [if_neg hc]
+      have hopen := openCount_set l.conns k c (c.step (.chunk d bs bs.length false)) hk hret
+      refine ⟨?_, ?_, ?_, ?_, ?_, ?_⟩
+      · simp [h.total]
+      · simp only [hopen, h.opened, hsame]
+        cases c.returned <;> simp
+      · have h1 := sum_map_set (fun c => c.d0.audited) l.conns k c _ hk hmono.1
+        have h2 := h.inbound
+        simp only [sumIn] at h2 ⊢
+        omega
+      · have h1 := sum_map_set (fun c => c.d1.audited) l.conns k c _ hk hmono.2
+        have h2 := h.outbound
+        simp only [sumOut] at h2 ⊢
+        omega
+      · intro c' hc'
+        simp only at hc'
+        rcases List.mem_or_eq_of_mem_set hc' with hc' | rfl
+        · exact h.reach c' hc'
+        · obtain ⟨es, hes⟩ := h.reach c (List.mem_of_getElem? hk)
+          exact ⟨es ++ [.chunk d bs bs.length false], hes.step _⟩
+      · intro hst; simp [hs] at hst
+
+theorem LInv.release {l : Loop} (h : LInv l) : LInv l.release := by
+  refine ⟨h.total, h.opened, ?_, ?_, h.reach, h.stopped⟩
+  · simpa [Loop.release] using h.inbound
+  · simpa [Loop.release] using h.outbound
+
+theorem release_pending (l : Loop) : l.release.pendingIn = 0 ∧ l.release.pendingOut = 0 := ⟨rfl, rfl⟩
+
+/-- Every generation of the controller satisfies the loop invariant. -/
+structure CInv (c : Ctl) : Prop where
+  cur : LInv c.cur
+  past : ∀ g ∈ c.past, LInv g
+
+theorem CInv.init : CInv {} := ⟨LInv.init, by simp⟩
+
+theorem LInv.foldl_inFlight (ws : List (Nat × Bool × List UInt8)) : ∀ l : Loop, LInv l →
+    LInv (ws.foldl (fun l w => l.inFlight w.1 w.2.1 w.2.2) l) := by
+  induction ws with
+  | nil => intro l h; exact h
+  | cons w rest ih => intro l h; exact ih _ (h.inFlight _ _ _)
+
+theorem CInv.step {c : Ctl} (h : CInv c) (e : CtlEvent) : CInv (c.step e) := by
+  cases e with
+  | loop ev => exact ⟨h.cur.step ev, h.past⟩
+  | restart ws =>
+    refine ⟨LInv.init, ?_⟩
+    intro g hg
+    simp only [Ctl.step, List.mem_cons] at hg
+    rcases hg with rfl | hg
+    · exact (LInv.foldl_inFlight _ _ h.cur).step .stop
+    · exact h.past g hg
+  | release =>
+    refine ⟨h.cur.release, ?_⟩
+    intro g hg
+    simp only [Ctl.step, List.mem_map] at hg
+    obtain ⟨g', hg', rfl⟩ := hg
+    exact (h.past g' hg').release
+
+theorem CInv.foldl (es : List CtlEvent) : ∀ c, CInv c → CInv (es.foldl Ctl.step c) := by
+  induction es with
+  | nil => intro c h; exact h
+  | cons e rest ih => intro c h; exact ih _ (h.step e)
+
+/-- The current generation evolves independently of the earlier ones. -/
+theorem step_cur_congr (c₁ c₂ : Ctl) (e : CtlEvent) (h : c₁.cur = c₂.cur) : (c₁.step e).cur = (c₂.step e).cur := by
+  cases e <;> simp [Ctl.step, h]
+
+theorem foldl_cur_congr (es : List CtlEvent) : ∀ c₁ c₂ : Ctl, c₁.cur = c₂.cur →
+    (es.foldl Ctl.step c₁).cur = (es.foldl Ctl.step c₂).cur := by
+  induction es with
+  | nil => intro c₁ c₂ h; exact h
+  | cons e rest ih => intro c₁ c₂ h; exact ih _ _ (step_cur_congr c₁ c₂ e h)
 
 /-! ## Further facts about single connections -/
 
